@@ -640,7 +640,7 @@ def run(ctx):
             else:
                 found[key] = (old[0], old[1], old[2], old[3] + 1)
         # replay of the real Message objects through the model's format
-        if rec["status"] == "rejected" and rec.get("parts") and len(fmt_cases) < (1500 if ctx.thorough() else 350):
+        if rec["status"] == "rejected" and rec.get("parts") and len(fmt_cases) < (1500 if ctx.thorough() else 200):
             flat = [m for g in rec["messages"][:3] for m in g[:3]]
             files = make_files(text, extra)
             for m, parts in zip(flat, rec["parts"]):
@@ -709,7 +709,7 @@ def run(ctx):
 
     phase("coq-cases")
     # ---- (iii) the embossc CLI --------------------------------------------------
-    n_cli = 160 if ctx.thorough() else 40
+    n_cli = 160 if ctx.thorough() else 30
     by_status = {}
     for label, text, rec, probs in results:
         by_status.setdefault((rec["status"], rec["stage"]), []).append((label, text, rec))
